@@ -92,7 +92,10 @@ def _run_one(args):
 def run(prop, ctx, rep, seed=0, jobs=None):
     from .driver import load_rules
     mod = load_rules(prop)
-    muts = list(getattr(mod, "MUTANTS", []))
+    muts = getattr(mod, "MUTANTS", [])
+    if callable(muts):
+        muts = muts(ctx)
+    muts = list(muts)
     if not muts:
         rep.sensitivity = {"operators": 0}
         return
